@@ -27,7 +27,6 @@ NA = {
  "C25": "not claimed: handle lineage is a history property over the Handle state model; the hash/lineage function contracts planned in DESIGN §8 were not built",
  "C32": "not claimed: the remote job protocol spans processes and object storage; the index/naming contracts planned in DESIGN §8 were not built",
  "C35": "not claimed: configparser interpolation is string-library behaviour outside the encoded subset; DESIGN §8 planned only a bounded stand-in, which was not built",
- "C38": "not claimed: sub-scheduler equivalence is a whole-execution simulation between two schedulers; the kernel contracts planned in DESIGN §8 were not built",
  "C36": "behaviour lives in Alembic DDL/DML executed by the database engine; no Python function whose contract states row preservation",
 }
 
